@@ -52,7 +52,7 @@ def wcs_simple(rot_deg=0.0, cdelt=1e-3, proj='TAN', ctype=('RA', 'DEC'), crval=(
 
 
 PIXEL_NAMES = ['circle', 'ellipse', 'rectangle', 'polygon', 'regpoly', 'circleannulus', 'ellipseannulus',
-               'rectangleannulus', 'point', 'line', 'text', 'compound', 'circle_excl']
+               'rectangleannulus', 'point', 'line', 'text', 'compound', 'circle_excl', 'ellipse_odd']
 SKY_NAMES = ['sky_circle', 'sky_ellipse', 'sky_rectangle', 'sky_polygon', 'sky_circleannulus', 'sky_ellipseannulus',
              'sky_rectangleannulus', 'sky_point', 'sky_line', 'sky_text', 'sky_compound', 'sky_circle_gal', 'sky_ellipse_excl',
              'sky_circle_spectral']
@@ -70,6 +70,10 @@ def make(name):
     s = lambda lon, lat, frame='icrs': SkyCoord(lon * u.deg, lat * u.deg, frame=frame)  # noqa
     if name == 'circle':
         return R.CirclePixelRegion(c(42.5, 55.25), 4.5, meta=m(text='a circle', tag=['t1', 't2']), visual=v(color='red', linewidth=2))
+    if name == 'ellipse_odd':
+        # values a user may well write: a single tag given as a plain string, an angle outside [0, 360) deg as a plain Quantity
+        return R.EllipsePixelRegion(c(33.0, 61.0), 9.0, 4.0, angle=-30.0 * u.deg, meta=m(tag='background', text='odd'),
+                                    visual=v(color='cyan'))
     if name == 'circle_excl':
         return R.CirclePixelRegion(c(40.0, 61.0), 3.0, meta=m(include=False), visual=v(color='blue'))
     if name == 'ellipse':
